@@ -4,7 +4,7 @@ SPECIFICATION Spec
 CONSTANTS
   Threads = {"t1", "t2", "t3"}
   Fixed = {"queue-distributor-len", "set-producer-lock", "set-equal-other", "collector-resolve-copy"}
-  JudgeHandedOut = FALSE
+  JudgeHandedOut = TRUE
   OnlyComps = {"once", "pool", "accessors.rw", "accessors", "wrap.Future.Limit", "wrap.Worker.Once", "wrap.Operation.Lock", "synchronized", "collector", "waitgroup", "queue"}
   EmitObligations = FALSE
 INVARIANTS TypeOK Lockset HelperGuard NoConcurrentConflict Balanced
